@@ -71,3 +71,24 @@ Definition entry_points : list (string * string) :=
   ; ("flexmf/_base.py", "FlexMFScorerBase.__call__")
   ; ("implicit.py", "BaseRec.__call__")
   ; ("hpf.py", "HPFScorer.__call__") ].
+
+(* every integer field declared in a configuration class of the scorer files (declaring class, field): each may gate an
+   internal path (blocks, batches, truncated neighbourhoods) and must be among the fields the generator sets to small values *)
+Definition config_int_fields : list (string * string) :=
+  [ ("ALSConfig", "embedding_size")
+  ; ("ALSConfig", "epochs")
+  ; ("BiasedSVDConfig", "embedding_size")
+  ; ("BiasedSVDConfig", "n_iter")
+  ; ("FlexMFConfigBase", "batch_size")
+  ; ("FlexMFConfigBase", "embedding_size")
+  ; ("FlexMFConfigBase", "epochs")
+  ; ("FlexMFImplicitConfig", "negative_count")
+  ; ("FunkSVDConfig", "epochs")
+  ; ("FunkSVDConfig", "features")
+  ; ("HPFConfig", "embedding_size")
+  ; ("ItemKNNConfig", "block_size")
+  ; ("ItemKNNConfig", "max_nbrs")
+  ; ("ItemKNNConfig", "min_nbrs")
+  ; ("ItemKNNConfig", "save_nbrs")
+  ; ("UserKNNConfig", "max_nbrs")
+  ; ("UserKNNConfig", "min_nbrs") ].
